@@ -1151,7 +1151,9 @@ class CanBeVaries(Element):
             reference = ('leaf', None, 'varies', None, None, -1)
 
         if not Validator.is_strict(validation_level) and datatype not in (None, 'varies') \
-                and not is_base_datatype(datatype, version):
+                and not is_base_datatype(datatype, version) \
+                and not (reference is not None and reference[0] == 'sequence' and reference[2] == datatype):
+            # (a reference that already describes that datatype - e.g. the one of a message profile - is kept)
             version = version or get_default_version()
             children_refs = load_reference(datatype, 'Datatypes_Structs', version)
             if name is not None:
@@ -1439,7 +1441,7 @@ class Component(SupportComplexDataType, CanBeVaries):
         return super(Component, self).add(obj)
 
     def parse_child(self, text, child_name=None, reference=None):
-        kwargs = {'name': child_name}
+        kwargs = {'name': child_name, 'reference': reference}
         if reference is not None:
             kwargs['datatype'] = reference[2]
         return super(Component, self).parse_child(text, **kwargs)
